@@ -92,12 +92,14 @@ class NL:
                 self.buf += chunk
 
     # ---- convenience -------------------------------------------------------------------------
-    def run(self, steps, fuel=1_000_000, sid=None, each_fresh=False, timeout=None, stop_on_panic=True):
+    def run(self, steps, fuel=1_000_000, sid=None, each_fresh=False, timeout=None, stop_on_panic=True, alloc_cap=None):
         """steps: list of str or dict(src=..., snap=[...], alloc=bool). Returns list of results."""
         st = [s if isinstance(s, dict) else {"src": s} for s in steps]
         req = {"op": "run", "steps": st, "fuel": fuel, "each_fresh": each_fresh, "stop_on_panic": stop_on_panic}
         if sid is not None:
             req["sid"] = sid
+        if alloc_cap is not None:
+            req["alloc_cap"] = alloc_cap    # growth guard: a larger single allocation ends the step as status "fuel"
         resp = self.request(req, timeout)
         if "error" in resp:
             raise Inconclusive("protocol", resp["error"], req)
